@@ -1,11 +1,12 @@
 \* both roles, both subjects, clock, piggy-backed attestations together (exhaustive, thorough tier, no replay)
 SPECIFICATION MCSpec
-CONSTANTS AlreadyChecked = TRUE PkPerAuthority = TRUE CheckSubject = TRUE CheckPermission = TRUE Window = 300 RespCap = 10 FitAll = 8
+CONSTANTS AlreadyChecked = TRUE PkPerAuthority = TRUE CheckSubject = TRUE CheckPermission = TRUE CommitBeforeSend = TRUE Window = 300 RespCap = 10 FitAll = 8
   Regs = {1, 3, 4} Senders = {1, 2} TokIdx = {2, 4} MdIdx = {2, 3, 7} AttIdx = {1, 2} MissIdx = {1}
-  Ticks = {301} OwnerPeers = {1} KnownVals = {0} AttSend = {1} RegFirst = TRUE
-  MaxReg = 2 MaxMsg = 3 MaxTick = 1 MaxOwn = 1
+  Ticks = {301} OwnerPeers = {1} KnownVals = {0} AttSend = {1} RegFirst = TRUE FaultTabs = {}
+  MaxReg = 2 MaxMsg = 3 MaxTick = 1 MaxOwn = 1 MaxFault = 0
 INVARIANT TypeOK
 INVARIANT SignsOnlyConsented
 INVARIANT StoresOnlyValidlySigned
 INVARIANT TokensOnlyUpToPermitted
 INVARIANT TreesVerified
+INVARIANT SentOnlyRecorded
